@@ -269,7 +269,9 @@ func (db *RockDB) incr(ts int64, key []byte, delta int64) (int64, error) {
 			return 0, err
 		}
 	}
-	n += delta
+	if n, err = addInt64(n, delta); err != nil {
+		return 0, err
+	}
 	buf := FormatInt64ToSlice(n)
 	buf = db.encodeRealValueToDBRawValue(ts, keyInfo.OldHeader, buf)
 	db.wb.Put(keyInfo.VerKey, buf)
